@@ -58,4 +58,22 @@ CHECKS = {
         "note": "Valid-Unicode names from a pool of 22 spellings; names containing '.t.sol' elsewhere than at the end are outside the statement and not generated.",
         "technique": "TLA+ spec (DirWalk.tla Eligible/Inert) + TLC + materialised hostile trees through the real analyze_dir + TLC trace validation",
     },
+    "C14": {
+        "text": "TLC checks the option-resolution machine (abort-iff, abort-before-write, directory precedence) over a family of inputs built from the catalogue of documented names extracted from /repo at check time; the real binary is run on every input in a scratch cwd with three identifiable witness directories that trigger all 30 patterns; exit status, report presence, directory identity and sections read back are validated by TV_Config; the name tables are checked for injectivity and coverage of the defaults.",
+        "design_ref": "section 7 C14",
+        "note": "Catalogue = first column of docs/identified-*.md plus the lists of Solstat.toml as found at check time; selection is observed through report sections, so the witness contracts must make every pattern fire.",
+        "technique": "TLA+ spec (Config.tla) + TLC-generated inputs run through the real binary + TLC trace validation",
+    },
+    "C15": {
+        "text": "TLC enumerates every Begin/End interleaving of a caller with 2-3 threads; each schedule is enforced on real threads calling the real analyze_for_* with overlapping computations, all ordered detector pairs are run sequentially, random directory trees vary siblings, position and co-selected patterns; every result is validated by TV_Calls / TV_DirWalk against the baseline of the same call made alone in a fresh process.",
+        "design_ref": "section 7 C15",
+        "note": "Interleavings are controlled at call boundaries; a race inside the library would be visible only through a wrong result.",
+        "technique": "TLA+ spec (Calls.tla) + TLC schedule enumeration + enforced schedules on real threads + TLC trace validation",
+    },
+    "C18": {
+        "text": "TLC enumerates every history of runs over four working directories and every initial state of the report files; each history is executed with the real binary on a scratch tree snapshotted before and after every run; TV_RunFs accepts a run iff only cwd/solstat_report.md changed and its bytes equal the report produced from a clean state.",
+        "design_ref": "section 7 C18",
+        "note": "Snapshots compare type, size, SHA-256 and mode of every path under the scratch root; mtimes are not compared.",
+        "technique": "TLA+ spec (RunFs.tla) + TLC history enumeration + real binary with file-system snapshots + TLC trace validation",
+    },
 }
